@@ -95,6 +95,28 @@ def external_definitions(ir):
     return out
 
 
+FN_DECL = re.compile(r"^(?:declare|define) ([^@\n]*)@([A-Za-z0-9_.]+)\(", re.M)
+CALL = re.compile(r"\bcall ([^@\n]*)@([A-Za-z0-9_.]+)\(")
+CALLCONVS = ("fastcc", "coldcc", "ccc", "tailcc", "swiftcc")
+
+
+def callconv_mismatches(ir):
+    """Calls whose calling convention is not the one their callee is declared
+    with (LLVM language reference: undefined behaviour; an optimising backend
+    turns such a call into `unreachable`)."""
+    def cc_of(attrs):
+        for w in attrs.split():
+            if w in CALLCONVS or w.startswith("cc"):
+                return w
+        return "ccc"
+    callee = {name: cc_of(attrs) for attrs, name in FN_DECL.findall(ir)}
+    out = []
+    for attrs, name in CALL.findall(ir):
+        if name in callee and cc_of(attrs) != callee[name]:
+            out.append((name, callee[name], cc_of(attrs)))
+    return out
+
+
 # ----------------------------------------------------------------- cases --
 class Case:
     """One self-contained configuration: files + file orders + entropy seeds
@@ -235,6 +257,10 @@ def evaluate_case(case, wd, check_artifacts=True, stats=None):
                         n_as += 1
                         if not ok:
                             viol.append(("invalid_ir", "module %s (order=%s): %s" % (name, order, msg)))
+                        bad_cc = callconv_mismatches(irs[name])
+                        if bad_cc:
+                            viol.append(("callconv_mismatch", "module %s: @%s is declared %s but called %s (undefined behaviour; `build --backend-args=-O1` miscompiles it)" %
+                                         ((name,) + bad_cc[0])))
                         ext = external_definitions(irs[name])
                         declared_pub = set(PUB_FN.findall(case.files[name]))
                         if MAIN_FN.search(case.files[name]):
